@@ -653,9 +653,45 @@ def illegal_framing_stops_the_parser(ctx, P):
     ctx.floor(P + ':S17-2:illegal-framing:floor', 'body reader constructions in the packet iterator', n, 2)
 
 
+def partial_chunk_size_bounded(ctx, P):
+    """RFC 9580 4.2.1.4: a partial body length is 2^n with n <= 30 (first octet 224..254); 255 introduces a five-octet length.  A chunk
+    size of 2^31 passes `>= 512 && is_power_of_two()` for a u32, and is then either written as first octet 255 (read back as a fixed
+    length taken from the body) or refused by PacketHeader::from_parts inside an `expect`.  Every function that validates a chunk
+    size with a power-of-two test also compares the same value with 2^30."""
+    from rules.common import single_defs, direct_cmp_switches
+    from rules import panics
+    n = 0
+    for p, r in sorted(ctx.f.bodies.items()):
+        if '::tests::' in p or r['kind'] == 'Closure':
+            continue
+        b = ctx.wrap(r)
+        pw = b.calls(r'u32::is_power_of_two$|u32::count_ones$|usize::is_power_of_two$')
+        pw = [(i, t) for i, t in pw if t['args'] and 'l' in t['args'][0]]
+        if not pw:
+            continue
+        defs = single_defs(b)
+        rets = set(b.returns())
+        for i, t in pw:
+            # an assertion (the failing side of the test never returns) is not a validation
+            sw = [g for g, tt in b.switches() if has_origin(b.switch_origins(g), r'cs:.*(is_power_of_two|count_ones)#%d$' % i)]
+            if sw and all(any(not (b.reach_from([j]) & rets) for j, _ in b.succ(g)) for g in sw):
+                continue
+            n += 1
+            vals = panics.copies_of(b, t['args'][0]['l'])
+            k0, v0 = resolve_value(b, t['args'][0], defs)
+            same = (lambda v: k0 == 'place' and 'l' in v0 and v.get('l') == v0['l'] and [e for e in v['pr'] if e != '*'] == [e for e in v0['pr'] if e != '*'])
+            lim = [g for g, op, side in direct_cmp_switches(b, lambda k, v: k == 'place' and 'l' in v and ((v['l'] in vals and not [e for e in v['pr'] if e != '*']) or same(v)),
+                                                            lambda c: c in (1 << 30, (1 << 30) + 1, (1 << 31) - 1, 1 << 31)) if op in ('Lt', 'Le', 'Gt', 'Ge')]
+            ctx.check('%s:S17-6:partial-chunk-size-at-most-2^30:%s' % (P, p), 'R-sib', '%s, which tests a partial chunk size for being a power of two, also bounds it by 2^30' % '::'.join(p.split('::')[-2:]),
+                      bool(lim), function=p, site=site(b, i),
+                      missing=None if lim else 'the size tested at %s is not compared with 2^30: 2^31 passes, is written as length octet 255 (a five-octet fixed length to every reader) or hits an expect() after 2 GiB were buffered' % site(b, i))
+    ctx.floor(P + ':S17-6:floor', 'power-of-two tests of a partial chunk size', n, 4)
+
+
 def run(ctx):
     P = 'C17'
     partial_emitters(ctx, P)
+    partial_chunk_size_bounded(ctx, P)
     illegal_framing_stops_the_parser(ctx, P)
     message_parser_consumes_bodies(ctx, P)
     packet_bodies_through_body_reader(ctx, P)
